@@ -17,6 +17,10 @@ TIERS = {
 NAMESPACES = ['/', '/a', '/b']
 EVENTS = ['ev0', 'ev1', 'ev2', 'my event', 'é!', 'unhandled_x', 'ev_g']
 HANDLED = ['ev0', 'ev1', 'ev2', 'my event', 'é!']
+# a server may name its events as it likes: an EVENT packet called like a
+# lifecycle notification goes to the handler registered under that name (and
+# is never routed to a catch-all)
+RESERVED = ['connect', 'disconnect', 'connect_error']
 CLASS_EVENTS = ['ev0', 'ev1', 'ev2']
 IDS = [None, None, 0, 0, 1, 1, 2, 7, 10, 10**20]
 
@@ -61,7 +65,7 @@ class History:
         for ns in self.nss:
             st = self.style[ns]
             if st == 'func':
-                for ev in HANDLED:
+                for ev in HANDLED + RESERVED:
                     h.on(ev, self.mk(ns, ev, 'func'), ns, self.co)
             elif st == 'catchall':
                 h.on('*', self.mk_catchall(ns), ns, self.co)
@@ -130,8 +134,10 @@ class History:
 
     def responsible(self, ns, ev):
         st = self.style.get(ns, 'none')
-        if st == 'func' and ev in HANDLED:
+        if st == 'func' and ev in HANDLED + RESERVED:
             return 'func'
+        if ev in RESERVED:
+            return None
         if st == 'catchall':
             return 'catchall'
         if self.global_ev and ev == 'ev_g':
@@ -194,6 +200,9 @@ class History:
         tok = self.tok
         ns = rng.choice(self.nss)
         ev = rng.choice(EVENTS)
+        if rng.random() < 0.08:
+            ev = rng.choice(RESERVED)
+            ctx.count('events_named_like_lifecycle_notifications')
         args = [tok] + gen.gen_args(rng, True, 3, maxn=3)
         pid = rng.choice(IDS)
         if self.serializer == 'msgpack' and pid is not None and pid >= 2**63:
@@ -672,6 +681,7 @@ def run(ctx):
     ctx.require('binary_recoveries_raises', 3)
     ctx.require('binary_recoveries_overlaps', 3)
     ctx.require('callbacks_checked', 20)
+    ctx.require('events_named_like_lifecycle_notifications', 20)
     ctx.require('calls_judged', 20)
     ctx.require('call_timeouts_observed', 5)
     for cls in ('correct', 'duplicate', 'zero', 'foreign', 'never_issued',
